@@ -150,6 +150,22 @@ func init() {
 		fmt.Fprintf(&sb, "/-- jsonWithParams: one ahead per parameter, in parameter order -/\n")
 		fmt.Fprintf(&sb, "def aheadsRange : String := %s\n", leanStr(ipExprText(fset, rng.Key)+", "+ipExprText(fset, rng.Value)+" := range "+ipExprText(fset, rng.X)))
 		fmt.Fprintf(&sb, "def aheadsBody : List String := %s\n", ipLeanStrList(ipStmtTexts(fset, rng.Body.List)))
+		// every named label is set: the walk writes to a map of its own (`found`), guarded by the validity test; a last
+		// loop over the aheads assigns found[label] ("" when absent) to the entry's labels
+		var lastRng *ast.RangeStmt
+		for _, st := range fd.Body.List {
+			if rs, ok := st.(*ast.RangeStmt); ok {
+				lastRng = rs
+			}
+		}
+		if lastRng == rng {
+			return "", fmt.Errorf("the loop of jsonWithParams that sets every named label not found")
+		}
+		fmt.Fprintf(&sb, "/-- jsonWithParams: the tests guarding the walk, and what the walk writes to -/\n")
+		fmt.Fprintf(&sb, "def jsonParamsConds : List String := %s\n", ipLeanStrList(ipIfConds(fset, fd.Body)))
+		fmt.Fprintf(&sb, "def jsonParamsFound : List String := %s\n", ipLeanStrList(append(ipAssignsTo(fset, fd.Body, "found"), ipAssignsTo(fset, fd.Body, "jpp")...)))
+		fmt.Fprintf(&sb, "def jsonParamsFinalRange : String := %s\n", leanStr(ipExprText(fset, lastRng.Key)+", "+ipExprText(fset, lastRng.Value)+" := range "+ipExprText(fset, lastRng.X)))
+		fmt.Fprintf(&sb, "def jsonParamsFinalBody : List String := %s\n", ipLeanStrList(ipStmtTexts(fset, lastRng.Body.List)))
 		fd = findFunc(f, "", "filterAhead")
 		if fd == nil {
 			return "", fmt.Errorf("filterAhead not found")
@@ -169,7 +185,19 @@ func init() {
 			setAssigns = append(setAssigns, ipAssignsTo(fset, rs.Body, "(*j.labels)")...)
 			return false
 		})
-		fmt.Fprintf(&sb, "/-- process: on a scalar, which aheads get the value (string case, then the default case) -/\n")
+		fmt.Fprintf(&sb, "/-- process: every test, in source order (object/array some path ends at: read as a whole, text to the exhausted aheads, the others go on) -/\n")
+		fmt.Fprintf(&sb, "def processConds : List String := %s\n", ipLeanStrList(ipIfConds(fset, fd.Body)))
+		var deeperStmts []string
+		ast.Inspect(fd.Body, func(n ast.Node) bool {
+			if as, ok := n.(*ast.AssignStmt); ok {
+				if t := ipExprText(fset, as); strings.Contains(t, "deeper") || strings.Contains(t, "dec.Raw()") {
+					deeperStmts = append(deeperStmts, t)
+				}
+			}
+			return true
+		})
+		fmt.Fprintf(&sb, "def processDeeper : List String := %s\n", ipLeanStrList(deeperStmts))
+		fmt.Fprintf(&sb, "/-- process: which aheads get the value (composite case, string case, default case; the first loop collects the aheads that go on) -/\n")
 		fmt.Fprintf(&sb, "def setConds : List String := %s\n", ipLeanStrList(setConds))
 		fmt.Fprintf(&sb, "def setAssigns : List String := %s\n", ipLeanStrList(setAssigns))
 		for _, m := range []string{"processObject", "processArray"} {
